@@ -105,10 +105,19 @@ m("C11", "proof",
   "it regardless of what was left (C11_dest_start_fresh, C11_dest_start_transaction_fresh), an accepted put "
   "request on an idle sender yields a state whose transaction-relevant part is a function of request and "
   "configuration alone (C11_source_put_forgets_history), and an operation on one handler of a world leaves "
-  "every other handler object untouched — no field is shared (C11_instances_independent). The executable "
+  "every other handler object untouched — no field is shared (C11_instances_independent). FOR EVERY HISTORY "
+  "(Lemmas/FreshDest.lean, FreshSource.lean: the C10 whole-FSM invariants extended by 'not busy => parameter "
+  "block = a new handler's', derived by tools/gen_fresh.py, the mvcgen proofs go through unchanged): after any "
+  "sequence of calls, PDUs, cancel requests, resets, fault-table changes and refused writes, an idle handler "
+  "has a new handler's parameter block and step (C11_dest_idle_is_fresh_all_histories, "
+  "C11_source_idle_is_fresh_all_histories), so the follow-up put request yields exactly what it yields on a "
+  "new handler (C11_source_followup_after_any_history). The executable "
   "consequence (same observable trace) is checked differentially on implementation and model.",
-  "Lean 4 theorems (reset/fresh-block, frame over World) + differential fresh-vs-reused/concurrent", "§6 C11",
-  ["observable equality is checked, not proved, for whole follow-up transactions (reuse_same_trace of DESIGN §6)"])
+  "Lean 4 theorems (reset/fresh-block, whole-FSM invariant for every history, frame over World) + differential "
+  "fresh-vs-reused/concurrent", "§6 C11",
+  ["what survives a transaction outside the parameter block (residual queue, filestore, fault table, provider, "
+   "logs) is carried along by design; trace equality of whole follow-up transactions on the implementation is "
+   "checked differentially"])
 m("C16", "translation_validation",
   "end-to-end transfers (all modes, closure, checksum types, sizes, fault plans with retransmission, cancel "
   "requests) executed twice on the implementation — on a purely in-memory VirtualFilestore whose paths do not "
